@@ -10,16 +10,16 @@ CHECKS = {
  "C02": ("generated programs of the effect-sequenced fragment with deliberate name reuse and compiler-style identifiers; the Core abstract machine on fun2core's output must agree with the reference interpreter; top-level labels must be pairwise distinct",
          "trusts the reference interpreter and the Core machine (DESIGN 3.1, 3.2)",
          "property-based differential testing: reference interpreter vs Core abstract machine"),
- "C03": ("Core programs from fun2core with effects in arbitrary argument positions; the Core machine with dynamic focusing on the unfocused program must agree with the same machine on the focused program; binder-uniqueness invariant checked on every path",
+ "C03": ("two domains: Core programs from fun2core with effects in arbitrary argument positions, and well-typed Core programs generated directly as syntax trees (gen_core: all 26 producer/consumer cut shapes, nesting in any argument position, shadowing); the Core machine with dynamic focusing on the unfocused program must agree with the same machine on the focused program; binder-uniqueness invariant checked on every path",
          "trusts the Core machine's dynamic-focusing semantics (DESIGN 3.2), written from the calculus and not from focus.rs",
          "property-based differential testing (same machine before/after focusing) + structural invariant"),
- "C04": ("focused Core programs covering all cut shapes of core2axcut (histogram in evidence); Core machine vs named AxCut machine; free variables of every definition are parameters; binders unique along paths",
+ "C04": ("focused Core programs from the pipeline and from directly generated Core programs (gen_core), covering all cut shapes of core2axcut (histogram in evidence); Core machine vs named AxCut machine; free variables of every definition are parameters; binders unique along paths",
          "trusts the Core and AxCut machines (DESIGN 3.2, 3.3)",
          "property-based differential testing: Core machine vs AxCut machine"),
- "C05": ("non-linear AxCut programs from the pipeline; named machine vs positional/linear machine on the linearized program, plus an independent static checker of the ordered linear discipline over every path",
+ "C05": ("non-linear AxCut programs from three sources (pipeline, direct generator gen_axcut, programs shrunk from directly generated Core programs); named machine vs positional/linear machine on the linearized program, plus an independent static checker of the ordered linear discipline over every path",
          "trusts the AxCut machines and the checker's reading of what the code generators assume (DESIGN C05)",
          "property-based differential testing + independent type checker for the linear discipline"),
- "C06": ("linearized AxCut programs from two generators (pipeline output of generated Fun programs; a stateful generator of linear AxCut programs with environments up to 24 variables, objects with up to 8 fields, all operators/comparisons, 64-bit literals, arbitrary substitutions); the positional AxCut machine must agree with the emulation of the printed x86-64 text on the sequence of print calls and the returned value",
+ "C06": ("linearized AxCut programs from three generators (pipeline output of generated Fun programs; a stateful generator of linear AxCut programs with environments up to 24 variables kept in the spill area by a wide mode, objects with up to 8 fields, all operators/comparisons, 64-bit literals, arbitrary substitutions; directly generated Core programs taken through focusing, shrinking and linearization), plus a native cross-check of the emulator on a sample; the positional AxCut machine must agree with the emulation of the printed x86-64 text on the sequence of print calls and the returned value",
          "trusts the x86-64 emulator's reading of the printed instruction subset (cross-checked against native execution by C01) and the AxCut machine",
          "property-based differential testing: AxCut machine vs emulator of the emitted assembly text (stateful generator of linear programs)"),
  "C07": ("as C06 for AArch64 (register-file boundary at 13 variables, MOVZ/MOVN/MOVK literal synthesis, SP alignment at every stack access)",
@@ -40,10 +40,10 @@ CHECKS = {
  "C11": ("exhaustive enumeration of all maps new[m] -> old[n] (m, n <= 3 quick, <= 5 thorough), all kind assignments, all window offsets across each backend's register/spill boundary, with and without object padding, plus seeded random larger substitutions with aliased and multi-block objects; each configuration is executed on the emulator with the heap auditor and compared with the AxCut machine",
          "trusts emulators, heap auditor and AxCut machine; the substitution is observed through a generated prelude/epilogue, not a hand-prepared machine state",
          "exhaustive enumeration of a finite configuration space + property-based sampling beyond it, differential oracle with heap invariant"),
- "C12": ("generated accepted programs are pushed through every stage under catch_unwind; independent type/scope checkers for Core (unfocused, uniquified, focused), AxCut (non-linear) and the ordered linear discipline; all three code generators",
+ "C12": ("generated accepted Fun programs and directly generated well-typed Core programs are pushed through every stage under catch_unwind; independent type/scope checkers for Core (unfocused, uniquified, focused), AxCut (non-linear) and the ordered linear discipline; all three code generators",
          "trusts the independent checkers' reading of the typing rules listed in the property",
          "property-based testing with independent type checkers as oracles at every stage"),
- "C15": ("accept side: programs well-typed by construction must be accepted; reject side: 16 classes of single certainly-ill-typed edits applied at every applicable site must be rejected with an error (not accepted, no panic)",
+ "C15": ("accept side: programs well-typed by construction must be accepted; reject side: 18 classes of single certainly-ill-typed edits (including a constructor / destructor of a different type with the same type arguments) applied at every applicable site must be rejected with an error (not accepted, no panic)",
          "trusts the generator's typing discipline (accept) and that each mutation class is ill-typed under any reading (reject)",
          "property-based testing: constructive generation + mutation-based negative testing"),
  "C14": ("assembly of all three backends for generated programs with adversarial identifiers, for the same programs extended by a definition whose name is chosen (two-pass) to print as a compiler-generated label, and for directly generated linear programs: text validator (labels unique/defined, runtime symbols, immediate/shift/offset ranges per instruction form), GNU as on the transliterated x86-64 file plus jump-table stride read from the object's symbol table, llvm-mc on the AArch64 text",
@@ -55,10 +55,10 @@ CHECKS = {
  "C17": ("(a) each generated program is compiled in 8 (quick) / 32 (thorough) fresh processes with varied environment and working directory; all printed stages must be byte-identical; (b) the same program compiled alone, twice and after other programs in one process must agree up to renumbering of generated label counters",
          "hash seeds cannot be chosen, processes sample them; the library stages are run, not the scc binary",
          "differential testing across processes and compilation histories (metamorphic relation: same input, different process state)"),
- "C18": ("token-level and byte-level mutations of valid programs, extreme literals, nesting up to a fixed depth, entry-point variations and random parseable-but-ill-typed programs: parser and checker must return Ok/Err, accepted programs with a valid entry must pass all later stages without a panic other than the documented capacity assertions; thorough adds a libFuzzer target",
+ "C18": ("token-level and byte-level mutations of valid programs, extreme literals, nesting up to a fixed depth, entry-point variations and random parseable-but-ill-typed programs: parser and checker must return Ok/Err, accepted programs with a valid entry must pass all later stages without a panic other than the documented capacity assertions; a declaration-stress domain (polymorphic declarations with non-regular and mutual recursion) is compiled in child processes so that an aborting or stack-exhausting compiler is observed; thorough adds a libFuzzer target",
          "stack exhaustion by unboundedly deep nesting is outside the property ('within stack limits'); the RISC-V backend's documented print limitation is tolerated",
          "mutation-based fuzzing with a crash/panic oracle (catch_unwind) + coverage-guided libFuzzer target"),
- "C19": ("scalable families (sequenced/nested conditionals and matches, critical pairs over multi-constructor types, codata results, random mixtures): every stage's size at depth 2k is at most 16x its size at depth k for k = 4..8",
+ "C19": ("scalable families (sequenced/nested conditionals and matches, critical pairs over multi-constructor types, codata results with one and two destructors, branch points in let bindings and call arguments, every kind of statement directly after a branch point, random mixtures): every stage's size at depth 2k is at most 16x its size at depth k for k = 4..8",
          "size measured on the printed form of each stage; witnesses polynomial growth on families, cannot prove it for all programs",
          "metamorphic testing over scalable generated families (growth-rate oracle)"),
  "C20": ("io.c linked with a small C main: all boundary values and random 64-bit values against Rust's formatting; programs printing all parameters compiled through the real pipeline and C driver for 0..5 parameters with boundary/random arguments, wrong argument counts, exit status; AArch64 entry with 0..7 arguments on the emulator",
